@@ -91,7 +91,7 @@ var table = map[string]propInfo{
 	"C15": {
 		quick:    budget{checks: 320, shards: 16, inner: 150},
 		thorough: budget{checks: 4800, shards: 16, inner: 800},
-		rule: "each case: (S, K) and a permutation of message order and of field order within messages (oneof members stay contiguous, numbers/names/memberships kept). sort on (2/3 of the cases): the two responses are compared byte for byte. sort off: both are compiled into one binary and schemas and converter behaviour are compared on the same neutral inputs. " +
+		rule: "each case: (S, K) and a permutation of message order and of field order within messages (oneof members stay contiguous in 3 of 4 cases and are interleaved with other fields in the rest, numbers/names/memberships kept). sort on (2/3 of the cases): the two responses are compared byte for byte. sort off: both are compiled into one binary and schemas and converter behaviour are compared on the same neutral inputs. " +
 			"Non-trivial: the permutation moves a commented field, a oneof block or a message. Distinct by hash of (S, K, permutation).",
 	},
 	"C16": {
